@@ -48,6 +48,88 @@ pub fn run_structures(
     }
 }
 
+/// Claim trees of S(n,d) with member names drawn from `pool` in every sibling-distinct way
+/// (prefix relations between names: a / ab / abc / b).
+pub fn named_trees(n: usize, d: usize, pool: &[&str]) -> Vec<Value> {
+    fn injections(k: usize, pool: usize) -> Vec<Vec<usize>> {
+        fn rec(k: usize, pool: usize, cur: &mut Vec<usize>, out: &mut Vec<Vec<usize>>) {
+            if cur.len() == k {
+                out.push(cur.clone());
+                return;
+            }
+            for i in 0..pool {
+                if !cur.contains(&i) {
+                    cur.push(i);
+                    rec(k, pool, cur, out);
+                    cur.pop();
+                }
+            }
+        }
+        let mut out = vec![];
+        rec(k, pool, &mut vec![], &mut out);
+        out
+    }
+    fn variants(s: &Shape, pool: &[&str], next: &mut i64) -> Vec<Value> {
+        match s {
+            Shape::Leaf => {
+                *next += 1;
+                vec![json!(*next)]
+            }
+            Shape::Arr(ch) => {
+                let per: Vec<Vec<Value>> = ch.iter().map(|c| variants(c, pool, next)).collect();
+                cartesian(&per).into_iter().map(Value::Array).collect()
+            }
+            Shape::Obj(ch) => {
+                let per: Vec<Vec<Value>> = ch.iter().map(|c| variants(c, pool, next)).collect();
+                let combos = cartesian(&per);
+                let mut out = vec![];
+                for inj in injections(ch.len(), pool.len()) {
+                    for c in &combos {
+                        let mut m = Map::new();
+                        for (i, v) in inj.iter().zip(c) {
+                            m.insert(pool[*i].to_string(), v.clone());
+                        }
+                        out.push(Value::Object(m));
+                    }
+                }
+                out
+            }
+        }
+    }
+    fn cartesian(lists: &[Vec<Value>]) -> Vec<Vec<Value>> {
+        let mut out: Vec<Vec<Value>> = vec![vec![]];
+        for l in lists {
+            let mut nx = vec![];
+            for p in &out {
+                for x in l {
+                    let mut q = p.clone();
+                    q.push(x.clone());
+                    nx.push(q);
+                }
+            }
+            out = nx;
+        }
+        out
+    }
+    let mut out = vec![];
+    for f in gen::scope(n, d) {
+        // only shapes with at least two object members somewhere are interesting for name relations
+        let mut next = 0i64;
+        for v in variants(&Shape::Obj(f.clone()), pool, &mut next) {
+            let mut m = Map::new();
+            m.insert("iss".into(), json!(gen::ISS));
+            for (k, x) in v.as_object().unwrap() {
+                m.insert(k.clone(), x.clone());
+            }
+            m.insert("exp".into(), json!(gen::EXP));
+            out.push(Value::Object(m));
+        }
+    }
+    out.sort_by_key(|v| v.to_string());
+    out.dedup();
+    out
+}
+
 pub fn rotating_cfg(seed: i64) -> impl Fn(usize) -> Vec<Cfg> + Sync {
     let all = Cfg::all();
     move |i| vec![all[(i as i64 + seed).rem_euclid(all.len() as i64) as usize]]
